@@ -2,7 +2,7 @@
    Statements only, one group per allocator family; the models are tied to the code by replay of
    implementation logs (see the evidence file for what was replayed on this run). *)
 From Coq Require Import ZArith List Bool.
-From FM Require Import FixedStack SmallCarve PoolSpec SlotProofs ListLib PoolSpecProofs Stack StackProofs Iteration IterationProofs InvalidRelease SmallList SmallListProofs Stack Arena UnorderedList UnorderedRefine PoolExec PoolExecProofs.
+From FM Require Import FixedStack SmallCarve PoolSpec SlotProofs ListLib PoolSpecProofs Stack StackProofs Iteration IterationProofs InvalidRelease SmallList SmallListProofs Stack Arena UnorderedList UnorderedRefine PoolExec PoolExecProofs SmallRefine SmallPoolExec SmallPoolExecProofs.
 Import ListNotations.
 Local Open Scope Z_scope.
 
@@ -124,6 +124,18 @@ Print Assumptions C01_pool_exec_refines_spec.
 Theorem C01_pool_exec_initial_state_related : forall k ns bs, 0 < ns -> PR (up_init k ns bs) (mk_ast [ul ns [] 0]).
 Proof. exact init_PR. Qed.
 Print Assumptions C01_pool_exec_initial_state_related.
+
+(* the same for memory_pool<small_node_pool> (SmallPoolExec.v: arena + small list; no arrays): every operation, for any upstream
+   answer that is a fresh aligned block whose chunks hold at least one node, is accepted by the Spec; hence every history *)
+Theorem C01_small_pool_exec_step_refines_spec : forall s sp o s' r evs, SPR s sp -> 1 <= sp_ns s -> sp_answer_ok s sp o ->
+  sp_step s o = Some (s', r, evs) -> exists sp', acc_op sp (sp_spec_op (sp_ns s) o) evs r = Some sp' /\ SPR s' sp'.
+Proof. exact small_pool_step_refines. Qed.
+Print Assumptions C01_small_pool_exec_step_refines_spec.
+
+Theorem C01_small_pool_exec_refines_spec : forall os s sp s' tr, SPR s sp -> 1 <= sp_ns s -> sp_answers_ok s sp os ->
+  sp_run s os = Some (s', tr) -> exists sp', PoolSpecProofs.run sp tr = Some sp' /\ SPR s' sp'.
+Proof. exact small_pool_refines_spec. Qed.
+Print Assumptions C01_small_pool_exec_refines_spec.
 
 Example C01_pool_exec_nonvacuous :
   match up_run (up_init AGrow 16 176) [PAllocNode (Some 65536); PAllocNode None; PTryAllocNode; PDeallocNode 65552; PAllocNode None; PAllocArray 40 None; PDeallocArray 65600 40; PTryAllocArray 4000] with
